@@ -171,6 +171,11 @@ func scenariosFor(prop string) []scn {
 		both(flowParams{Sources: 1, Records: 3, Batch: 3, Dests: 1, AckMenu: onlyOK, Window: 1, Thresh: 0, Procs: []procParam{{ID: "pp", Kinds: []string{"p", "e", "p"}}}, Retries: 2}, 1, 2)
 		// ... the same with a processor that runs two workers (v1 wraps it in a parallel node)
 		both(flowParams{Sources: 1, Records: 2, Batch: 1, Dests: 1, AckMenu: onlyOK, Window: 1, Thresh: 0, Procs: []procParam{{ID: "pp", Workers: 2, Kinds: []string{"p", "e"}}}, Retries: 2}, 1, 2)
+		// ... the processor sits on ONE destination branch of a fan-out and rejects a record in the middle of a batch
+		both(flowParams{Sources: 1, Records: 3, Batch: 3, Dests: 2, AckMenu: onlyOK, Window: 1, Thresh: 0, Procs: []procParam{{ID: "dp", Parent: "d1", Kinds: []string{"p", "e", "p"}}}, Retries: 2}, 2, 3)
+		// a second stop request (or the shutdown) arrives while the first one still drains, then the drain fails transiently
+		both(flowParams{Sources: 1, Records: 1, Batch: 1, Dests: 1, AckMenu: []string{"ok", "err"}, Ctl: []string{"stop", "stop", "wait"}, Retries: 2}, 3, 3)
+		both(flowParams{Sources: 1, Records: 1, Batch: 1, Dests: 1, AckMenu: []string{"ok", "err"}, Ctl: []string{"stop", "stopall", "wait"}, Retries: 2}, 3, 3)
 		// a processor that never returns a result for one record: the retries do not converge, fatal
 		both(flowParams{Sources: 1, Records: 2, Batch: 2, Dests: 1, AckMenu: onlyOK, Procs: []procParam{{ID: "pp", Kinds: []string{"p", "short"}}}, Retries: 2}, 1, 2)
 		both(flowParams{Sources: 1, Records: 2, Batch: 1, Dests: 1, AckMenu: onlyOK, Procs: []procParam{{ID: "pp", Kinds: []string{"short", "p"}}}, Retries: 2}, 1, 2)
